@@ -77,6 +77,8 @@ TARGETS = [  # (target text, value expr, supported: True must render / False,Non
     ("d[k + 'x']", "1", False), ("f(a=1).x", "1", False), ("d[(w := 'k')]", "1", False), ("lst[0:2:1]", "[1, 2]", None),
     ("d[1, 2]", "1", None), ("d[ns.kk]", "1", None), ("d[lst[0]]", "1", None), ("(a, ns.x, *d['k'])", "(1, 2, 3)", True),
     ("", "1", None),  # no `as` clause at all
+    # locals that are bound on some paths only (the compiler cannot prove them bound: LOAD_FAST_CHECK on 3.12)
+    ("mb.x", "1", True), ("md[k]", "1", True), ("mf(1).x", "1", True), ("(mb.x, md['k'])", "(1, 2)", True),
 ]
 LAYOUTS = ["one", "gap", "multi", "paren", "big"]
 
@@ -113,7 +115,8 @@ def norm_node(t):
 
 def build(kind, layout, items):
     kw = "async with" if kind == "a" else "with"
-    lines = ["async def prog(ns, d, lst, k, f):", "    global g", "    cv = None", "    def clo(): return cv", "    nothing = None"]
+    lines = ["async def prog(ns, d, lst, k, f):", "    global g", "    cv = None", "    def clo(): return cv", "    nothing = None",
+             "    if k:", "        mb = ns; md = d; mf = f"]
 
     def item(v, t):
         return "M(%s) as %s" % (v, t) if t else "M(%s)" % v
